@@ -114,12 +114,21 @@ func init() {
 	g2lUnits = append(g2lUnits, &g2lUnit{
 		out: "FnZip", ns: "Zip", pkgDir: "zip",
 		imports:     []string{"ModVerif.Basic.GoRtUtf8", "ModVerif.Basic.GoRtPath"},
-		structNames: []string{"pathInfo"},
-		fns:         []string{"isVendoredPackage", "strToFold", "collisionChecker.check"},
+		structNames: []string{"pathInfo", "FileInfo", "File", "FileError", "CheckedFiles"},
+		ifaceStructs: map[string]string{
+			"FileInfo": "/-- `os.FileInfo` as the zip code uses it -/\nstructure FileInfo where\n  Mode : Int\n  IsDir : Bool\n  Size : Int\n  deriving DecidableEq, Repr\ninstance : Inhabited FileInfo := ⟨{ Mode := 0, IsDir := false, Size := 0 }⟩\n",
+			"File":     "/-- `type File interface` (Open yields the content) -/\nstructure File where\n  Path : Bytes\n  Lstat : FileInfo × Option String\n  Open : Bytes × Option String\n  deriving DecidableEq, Repr\ninstance : Inhabited File := ⟨{ Path := [], Lstat := (default, none), Open := ([], none) }⟩\n",
+		},
+		ifaces:      map[string]string{"ReadCloser": "Bytes"},
+		ignoreCalls: map[string]bool{"Close": true},
+		fns:         []string{"isVendoredPackage", "strToFold", "collisionChecker.check", "checkFiles"},
 		inout:       map[string]string{"collisionChecker.check": "cc"},
-		absFuncs:    map[string]string{"version.Compare": "versionCompare", "unicode.SimpleFold": "simpleFold"},
-		absSigs:     map[string]string{"versionCompare": "Bytes → Bytes → Int", "simpleFold": "Int → Int"},
-		stdCalls:    map[string]stdFn{"path.Dir": {"pathDir", false}},
+		absFuncs: map[string]string{"version.Compare": "versionCompare", "unicode.SimpleFold": "simpleFold", "strings.EqualFold": "equalFold",
+			"module.CheckFilePath": "checkFilePath", "strings.ToLower": "toLower", "version.Lang": "versionLang", "parseGoVers": "parseGoVers"},
+		absSigs: map[string]string{"versionCompare": "Bytes → Bytes → Int", "simpleFold": "Int → Int", "equalFold": "Bytes → Bytes → Bool",
+			"checkFilePath": "Bytes → Option String", "toLower": "Bytes → Bytes", "versionLang": "Bytes → Bytes", "parseGoVers": "Bytes → Bytes → Bytes"},
+		stdCalls: map[string]stdFn{"path.Dir": {"pathDir", false}, "path.Split": {"pathSplit", false}, "path.Clean": {"pathClean", false}, "path.IsAbs": {"pathIsAbs", false},
+			"io.ReadAll": {"readAll", false}, "info.Mode().IsRegular": {"modeIsRegular", false}},
 	})
 }
 
